@@ -21,7 +21,9 @@ Section Runs.
 End Runs.
 
 Definition run (l : list op) : state := runs step init l.
-Definition lrun (l : list op) : state := runs Legacy.step init l.
+Definition lrun (l : list op) : state := runs Legacy.step init l.        (* before the fix *)
+Definition mrun (l : list op) : state := runs Mut7.step init l.          (* C12-mut7 on the repaired code *)
+Definition mlrun (l : list op) : state := runs Mut7.legacy_step init l.  (* C12-mut7 before the fix *)
 
 Definition op_time (o : op) : N :=
   match o with Register _ _ n _ => n | Tick n => n | Get _ n => n end.
@@ -73,7 +75,7 @@ End Sched.
 Record reg := { ruid : N; rtid : N; rnow : N; rval : N }.
 Definition rexp (r : reg) : N := (rnow r + rval r)%N.
 Definition to_entry (r : reg) : entry := {| euid := ruid r; eexp := rexp r |}.
-Definition to_kv (r : reg) : N * N := (ruid r, rtid r).
+Definition to_kv (r : reg) : N * (N * N) := (ruid r, (rtid r, rexp r)).
 
 Fixpoint regs (l : list op) : list reg :=
   match l with
@@ -116,18 +118,18 @@ Qed.
 
 (* ------------------------------------------------------------------ association lists *)
 
-Lemma aset_fresh : forall (k v : N) (m : list (N * N)),
+Lemma aset_fresh : forall (V : Type) (k : N) (v : V) (m : list (N * V)),
   ~ In k (map fst m) -> aset k v m = m ++ [(k, v)].
 Proof.
-  induction m as [|[k' v'] m IH]; intros H; cbn in *; [reflexivity|].
+  intros V k v. induction m as [|[k' v'] m IH]; intros H; cbn in *; [reflexivity|].
   destruct (N.eqb_spec k k') as [->|Hne]; [exfalso; apply H; left; reflexivity|].
   rewrite IH; [reflexivity | intro; apply H; right; assumption].
 Qed.
 
-Lemma alookup_aset_other : forall (k k' v : N) (m : list (N * N)),
+Lemma alookup_aset_other : forall (V : Type) (k k' : N) (v : V) (m : list (N * V)),
   k <> k' -> alookup k (aset k' v m) = alookup k m.
 Proof.
-  induction m as [|[k2 v2] m IH]; intros H; cbn.
+  intros V k k' v. induction m as [|[k2 v2] m IH]; intros H; cbn.
   - destruct (N.eqb_spec k k'); [contradiction | reflexivity].
   - destruct (N.eqb_spec k' k2) as [->|Hne]; cbn.
     + destruct (N.eqb_spec k k2); [contradiction | reflexivity].
@@ -137,17 +139,17 @@ Qed.
 Lemma map_fst_kv : forall suf, map fst (map to_kv suf) = map ruid suf.
 Proof. intros. rewrite map_map. reflexivity. Qed.
 
-Lemma alookup_kv_some : forall suf u t, alookup u (map to_kv suf) = Some t ->
-  exists r, In r suf /\ ruid r = u /\ rtid r = t.
+Lemma alookup_kv_some : forall suf u t e, alookup u (map to_kv suf) = Some (t, e) ->
+  exists r, In r suf /\ ruid r = u /\ rtid r = t /\ rexp r = e.
 Proof.
-  induction suf as [|a suf IH]; intros u t H; cbn in *; [discriminate|].
+  induction suf as [|a suf IH]; intros u t e H; cbn in *; [discriminate|].
   destruct (N.eqb_spec u (ruid a)) as [->|Hne].
   - inversion H; subst. exists a. auto.
-  - destruct (IH _ _ H) as (r & Hin & Hu & Ht). exists r. auto.
+  - destruct (IH _ _ _ H) as (r & Hin & Hu & Ht & He). exists r. auto.
 Qed.
 
 Lemma alookup_kv_in : forall suf r, NoDup (map ruid suf) -> In r suf ->
-  alookup (ruid r) (map to_kv suf) = Some (rtid r).
+  alookup (ruid r) (map to_kv suf) = Some (rtid r, rexp r).
 Proof.
   induction suf as [|a suf IH]; intros r Hnd Hin; cbn in *; [contradiction|].
   inversion Hnd as [|x xs Hnotin Hnd']; subst.
@@ -191,7 +193,7 @@ Proof.
   - cbn [map prune]. cbn [to_entry eexp euid].
     destruct (N.ltb_spec now (rexp a)) as [Hlt|Hge].
     + exists [], (a :: suf). cbn. auto.
-    + change (to_kv a) with (ruid a, rtid a). cbn [aremove]. rewrite N.eqb_refl.
+    + change (to_kv a) with (ruid a, (rtid a, rexp a)). cbn [aremove]. rewrite N.eqb_refl.
       destruct IH as (dr & keep & -> & Hp & Hf & Hk).
       exists (a :: dr), keep. repeat split; auto.
 Qed.
@@ -416,20 +418,139 @@ Qed.
 
 (* ------------------------------------------------------------------ Get serves only tables still in force *)
 
-(* For a schedule with lateness d in which no validity exceeds V: the table served was registered,
-   and less than V + d has passed since.  With a constant validity V (what the code's comment on
-   expirationList assumes) n + V is the table's own expiry: it is served strictly before
-   expiry + d; with the ideal timer (d = 0) strictly before its expiry. *)
-Lemma get_only_unexpired : forall d V l uid now t,
-  uniq l -> sched step d 0 init (l ++ [Get uid now]) -> validity_le V l ->
+(* every value in the map is the (contents, expiry) of a registration of that UID *)
+Definition tables_ok (l : list op) (m : list (N * (N * N))) : Prop :=
+  forall u t e, In (u, (t, e)) m -> exists n v, In (Register u t n v) l /\ e = (n + v)%N.
+
+Lemma alookup_in : forall (V : Type) (k : N) (v : V) (m : list (N * V)), alookup k m = Some v -> In (k, v) m.
+Proof.
+  intros V k v. induction m as [|[k' v'] m IH]; intros H; cbn in *; [discriminate|].
+  destruct (N.eqb_spec k k') as [->|Hne]; [inversion H; left; reflexivity | right; apply IH; exact H].
+Qed.
+
+Lemma in_aset : forall (V : Type) (k : N) (v : V) (m : list (N * V)) p, In p (aset k v m) -> p = (k, v) \/ In p m.
+Proof.
+  intros V k v. induction m as [|[k' v'] m IH]; intros p H; cbn in *.
+  - destruct H as [<- | []]. left. reflexivity.
+  - destruct (N.eqb k k'); cbn in H.
+    + destruct H as [<- | H]; auto.
+    + destruct H as [<- | H]; auto. destruct (IH _ H); auto.
+Qed.
+
+Lemma in_aremove : forall (V : Type) (k : N) (m : list (N * V)) p, In p (aremove k m) -> In p m.
+Proof.
+  intros V k. induction m as [|[k' v'] m IH]; intros p H; cbn in *; [contradiction|].
+  destruct (N.eqb k k'); cbn in H; auto. destruct H as [<- | H]; auto.
+Qed.
+
+Lemma in_prune : forall now l m p, In p (snd (fst (prune now l m))) -> In p m.
+Proof.
+  induction l as [|e l IH]; intros m p H; cbn in *; [exact H|].
+  destruct (now <? eexp e)%N; cbn in H; [exact H|].
+  apply IH in H. eapply in_aremove. exact H.
+Qed.
+
+Lemma tables_ok_mono : forall l o m, tables_ok l m -> tables_ok (l ++ [o]) m.
+Proof.
+  intros l o m H u t e Hin. destruct (H _ _ _ Hin) as (n & v & H1 & H2).
+  exists n, v. split; [apply in_or_app; left; exact H1 | exact H2].
+Qed.
+
+(* both the code and the C12-mut7 variant change the map only by these two *)
+Lemma tables_ok_step : forall l s o,
+  tables_ok l (tables s) ->
+  tables_ok (l ++ [o]) (tables (fst (step s o))) /\ tables_ok (l ++ [o]) (tables (fst (Mut7.step s o))).
+Proof.
+  intros l s o H.
+  assert (Hreg : forall u t n v, tables_ok (l ++ [Register u t n v]) (aset u (t, (n + v)%N) (tables s))).
+  { intros u t n v u' t' e' Hin. apply in_aset in Hin. destruct Hin as [Heq | Hin].
+    - inversion Heq; subst. exists n, v. split; [apply in_or_app; right; left; reflexivity | reflexivity].
+    - apply (tables_ok_mono (Register u t n v) H). exact Hin. }
+  assert (Hother : forall o', (forall u t n v, o' <> Register u t n v) ->
+            tables_ok (l ++ [o']) (tables (fst (step s o')))).
+  { intros o' Hne. destruct o' as [u t n v | now | u now]; [exfalso; eapply Hne; reflexivity | |].
+    - cbn [step]. destruct (tmr s) as [| |a]; try (apply tables_ok_mono; exact H).
+      destruct (a <=? now)%N; [|apply tables_ok_mono; exact H].
+      destruct (prune now (elist s) (tables s)) as [[l' m'] t'] eqn:Hp. cbn [fst tables].
+      intros u t e Hin. apply (tables_ok_mono (Tick now) H).
+      apply (in_prune now (elist s)). rewrite Hp. exact Hin.
+    - cbn. apply tables_ok_mono. exact H. }
+  destruct o as [u t n v | now | u now].
+  - split; cbn [step Mut7.step fst register Mut7.register tables]; apply Hreg.
+  - split; [|change (Mut7.step s (Tick now)) with (step s (Tick now))]; apply Hother; discriminate.
+  - split; [|change (Mut7.step s (Get u now)) with (step s (Get u now))]; apply Hother; discriminate.
+Qed.
+
+Lemma tables_ok_runs : forall l2 l1 s,
+  tables_ok l1 (tables s) ->
+  tables_ok (l1 ++ l2) (tables (runs step s l2)) /\ tables_ok (l1 ++ l2) (tables (runs Mut7.step s l2)).
+Proof.
+  assert (G : forall stepf, (forall l s o, tables_ok l (tables s) -> tables_ok (l ++ [o]) (tables (fst (stepf s o)))) ->
+    forall l2 l1 s, tables_ok l1 (tables s) -> tables_ok (l1 ++ l2) (tables (runs stepf s l2))).
+  { intros stepf Hs. induction l2 as [|o l2 IH]; intros l1 s H; cbn [runs].
+    - rewrite app_nil_r. exact H.
+    - change (o :: l2) with ([o] ++ l2). rewrite app_assoc. apply IH. apply Hs. exact H. }
+  intros l2 l1 s H. split; apply G; auto; intros l s' o H'; apply (@tables_ok_step l s' o H').
+Qed.
+
+(* With the fix: for EVERY history (any instants, any timer behaviour, repeated UIDs included) the
+   table Get serves was registered under that UID and its own expiry has not passed. *)
+Lemma get_only_unexpired : forall l uid now t,
   snd (step (run l) (Get uid now)) = OGet (Some t) ->
+  exists n v, In (Register uid t n v) l /\ (now < n + v)%N.
+Proof.
+  intros l uid now t H. cbn in H. unfold get in H.
+  destruct (alookup uid (tables (run l))) as [[t' e]|] eqn:Hl; [|discriminate].
+  destruct (N.ltb_spec now e) as [Hlt|]; [|discriminate]. inversion H; subst t'.
+  apply alookup_in in Hl.
+  destruct (@tables_ok_runs l [] init) as (Hok & _); [intros ? ? ? []|].
+  destruct (Hok _ _ _ Hl) as (n & v & Hin & ->). exists n, v. auto.
+Qed.
+
+(* ... and this does not depend on the timer: it holds of the C12-mut7 variant of the repaired code too *)
+Lemma get_only_unexpired_mut7 : forall l uid now t,
+  snd (Mut7.step (mrun l) (Get uid now)) = OGet (Some t) ->
+  exists n v, In (Register uid t n v) l /\ (now < n + v)%N.
+Proof.
+  intros l uid now t H. cbn in H. unfold get in H.
+  destruct (alookup uid (tables (mrun l))) as [[t' e]|] eqn:Hl; [|discriminate].
+  destruct (N.ltb_spec now e) as [Hlt|]; [|discriminate]. inversion H; subst t'.
+  apply alookup_in in Hl.
+  destruct (@tables_ok_runs l [] init) as (_ & Hok); [intros ? ? ? []|].
+  destruct (Hok _ _ _ Hl) as (n & v & Hin & ->). exists n, v. auto.
+Qed.
+
+(* Before the fix (Legacy.step: same transitions, Get without the comparison) *)
+Lemma lstep_fst : forall s o, fst (Legacy.step s o) = fst (step s o).
+Proof. intros s [ | | ]; reflexivity. Qed.
+
+Lemma runs_ext : forall f g, (forall s o, fst (f s o) = fst (g s o)) -> forall l s, runs f s l = runs g s l.
+Proof. intros f g H. induction l as [|o l IH]; intros s; cbn; [reflexivity | rewrite H; apply IH]. Qed.
+
+Lemma sched_ext : forall f g, (forall s o, fst (f s o) = fst (g s o)) ->
+  forall d l last s, sched f d last s l <-> sched g d last s l.
+Proof.
+  intros f g H d. induction l as [|o l IH]; intros last s; cbn; [tauto|]. rewrite H, IH. tauto.
+Qed.
+
+Lemma lrun_run : forall l, lrun l = run l.
+Proof. intros. apply runs_ext. apply lstep_fst. Qed.
+
+(* what held before the fix: served less than V + d after the registration, V bounding the
+   validities and d the lateness of the timer function *)
+Lemma legacy_get_only_unexpired : forall d V l uid now t,
+  uniq l -> sched Legacy.step d 0 init (l ++ [Get uid now]) -> validity_le V l ->
+  snd (Legacy.step (lrun l) (Get uid now)) = OGet (Some t) ->
   exists n v, In (Register uid t n v) l /\ (n <= now)%N /\ (now < n + V + d)%N.
 Proof.
   intros d V l uid now t Hu Hs HV Hget.
+  apply (sched_ext _ _ lstep_fst) in Hs. rewrite lrun_run in Hget.
   apply sched_app in Hs. destruct Hs as (Hs & Hg).
   destruct (@run_timed d l Hu Hs) as (pre & suf & E & (He & Htb & Hm) & (Hsort & Hn & _)).
-  cbn in Hget. inversion Hget as [Hl]. fold (run l) in Hg. rewrite Htb in Hl.
-  destruct (alookup_kv_some _ _ Hl) as (r & Hin & <- & <-).
+  cbn in Hget. unfold Legacy.get in Hget. fold (run l) in Hg.
+  destruct (alookup uid (tables (run l))) as [[t' e]|] eqn:Hl; [|discriminate].
+  inversion Hget; subst t'. rewrite Htb in Hl.
+  destruct (alookup_kv_some _ _ Hl) as (r & Hin & <- & <- & _).
   assert (Hreg : In (Register (ruid r) (rtid r) (rnow r) (rval r)) l).
   { apply in_regs. rewrite E. apply in_or_app. right. exact Hin. }
   exists (rnow r), (rval r). split; [exact Hreg|].
@@ -445,17 +566,6 @@ Proof.
   unfold rexp in Hdue. lia.
 Qed.
 
-Lemma get_only_unexpired_const : forall d V l uid now t,
-  uniq l -> sched step d 0 init (l ++ [Get uid now]) -> validity_const V l ->
-  snd (step (run l) (Get uid now)) = OGet (Some t) ->
-  exists n, In (Register uid t n V) l /\ (n <= now)%N /\ (now < (n + V) + d)%N.
-Proof.
-  intros d V l uid now t Hu Hs HV Hget.
-  assert (HV' : validity_le V l) by (intros u t0 n v H; rewrite (HV _ _ _ _ H); lia).
-  destruct (@get_only_unexpired d V l uid now t Hu Hs HV' Hget) as (n & v & Hin & H1 & H2).
-  pose proof (HV _ _ _ _ Hin) as ->. exists n. auto.
-Qed.
-
 (* ... and serves every registered table until its own expiry *)
 Lemma get_serves_unexpired : forall d l uid t n v now,
   uniq l -> sched step d 0 init (l ++ [Get uid now]) ->
@@ -467,10 +577,11 @@ Proof.
   destruct (@run_timed d l Hu Hs) as (pre & suf & E & (He & Htb & Hm) & (Hsort & Hn & Hx)).
   cbn in Hg. destruct Hg as (Hlast & _ & _).
   apply regs_in in Hin. rewrite E in Hin. apply in_app_or in Hin.
-  cbn. rewrite Htb. destruct Hin as [Hin | Hin].
+  cbn. unfold get. rewrite Htb. destruct Hin as [Hin | Hin].
   - rewrite Forall_forall in Hx. apply Hx in Hin. unfold rexp in Hin. cbn in Hin. lia.
   - unfold uniq in Hu. rewrite E, map_app in Hu. apply nodup_app_r in Hu.
-    pose proof (@alookup_kv_in suf _ Hu Hin) as Hl. cbn in Hl. rewrite Hl. reflexivity.
+    pose proof (@alookup_kv_in suf _ Hu Hin) as Hl. cbn in Hl. rewrite Hl. unfold rexp. cbn.
+    destruct (N.ltb_spec now (n + v)); [reflexivity | lia].
 Qed.
 
 (* the first entry is the earliest when expiries are registered in order *)
@@ -570,16 +681,18 @@ Proof.
   - cbn in Hsplit. inversion Hsplit; subst. rewrite !map_length, app_length. lia.
 Qed.
 
-(* ------------------------------------------------------------------ the slack is real: witnesses *)
+(* ------------------------------------------------------------------ witnesses *)
 
-(* (a) validity lowered between two registrations: the later table is served after its own expiry,
-   under the ideal timer; the bound of get_only_unexpired is attained (now = n + V + d - 1) *)
+(* (a) before the fix, validity lowered between two registrations: the later table is served after its
+   own expiry, under the ideal timer; the bound of legacy_get_only_unexpired is attained
+   (now = n + V + d - 1).  With the fix the same Get is refused. *)
 Definition out_of_order : list op := [Register 1 1 0 30; Register 2 2 0 5].
 
-Lemma get_past_own_validity : exists l uid t n v now,
-  uniq l /\ sched step 0 0 init (l ++ [Get uid now]) /\ In (Register uid t n v) l /\
-  snd (step (run l) (Get uid now)) = OGet (Some t) /\ (n + v <= now)%N /\
-  validity_le 30 l /\ (now = n + 30 + 0 - 1)%N.
+Lemma legacy_get_past_own_validity : exists l uid t n v now,
+  uniq l /\ sched Legacy.step 0 0 init (l ++ [Get uid now]) /\ In (Register uid t n v) l /\
+  snd (Legacy.step (lrun l) (Get uid now)) = OGet (Some t) /\ (n + v <= now)%N /\
+  validity_le 30 l /\ (now = n + 30 + 0 - 1)%N /\
+  snd (step (run l) (Get uid now)) = OGet None.
 Proof.
   exists out_of_order, 2%N, 2%N, 0%N, 5%N, 29%N. unfold out_of_order.
   split; [unfold uniq; cbn; repeat constructor; cbn; intuition congruence|].
@@ -587,12 +700,13 @@ Proof.
   split; [cbn; auto|].
   split; [reflexivity|].
   split; [lia|].
-  split; [|reflexivity].
+  split; [|split; reflexivity].
   intros u t n v [H|[H|[]]]; inversion H; lia.
 Qed.
 
 (* (b) a repeated UID (outside [uniq]): the expiry of the first registration deletes the table of
-   the second one, which is still in force *)
+   the second one, which is then refused although still in force (never the other way round:
+   get_only_unexpired needs no [uniq]) *)
 Definition repeated_uid : list op :=
   [Register 1 1 0 10; Register 2 2 1 10; Register 1 3 5 10; Tick 10].
 
@@ -601,7 +715,7 @@ Lemma repeated_uid_drops_live_table :
   snd (step (run repeated_uid) (Get 1 10)) = OGet None /\ (10 < 5 + 10)%N.
 Proof. cbn. repeat split; lia. Qed.
 
-(* ------------------------------------------------------------------ Legacy: reset on every registration *)
+(* ------------------------------------------------------------------ C12-mut7: reset on every registration *)
 
 (* busy k: a registration with validity 2 at every instant 0 .. k-1 (UID i+1 at instant i) *)
 Definition busy_reg (i : nat) : op := Register (N.of_nat i + 1) (N.of_nat i + 1) (N.of_nat i) 2.
@@ -610,24 +724,30 @@ Definition busy (k : nat) : list op := map busy_reg (seq 0 k).
 Lemma busy_S : forall k, busy (S k) = busy k ++ [busy_reg k].
 Proof. intros. unfold busy. rewrite seq_S, map_app. reflexivity. Qed.
 
+Lemma mut7_fst : forall s o, fst (Mut7.legacy_step s o) = fst (Mut7.step s o).
+Proof. intros s [ | | ]; reflexivity. Qed.
+
+Lemma mlrun_mrun : forall l, mlrun l = mrun l.
+Proof. intros. apply runs_ext. apply mut7_fst. Qed.
+
 Lemma busy_state : forall k,
-  tmr (lrun (busy (S k))) = TArmed (N.of_nat k + 2) /\
-  alookup 1%N (tables (lrun (busy (S k)))) = Some 1%N.
+  tmr (mrun (busy (S k))) = TArmed (N.of_nat k + 2) /\
+  alookup 1%N (tables (mrun (busy (S k)))) = Some (1%N, 2%N).
 Proof.
   induction k as [|k (IH1 & IH2)].
   - cbn. auto.
-  - rewrite busy_S. unfold lrun in *. rewrite runs_app. cbn [runs busy_reg Legacy.step fst Legacy.register tmr tables].
+  - rewrite busy_S. unfold mrun in *. rewrite runs_app. cbn [runs busy_reg Mut7.step fst Mut7.register tmr tables].
     split; [f_equal; lia|].
     rewrite alookup_aset_other by lia. exact IH2.
 Qed.
 
-Lemma busy_sched : forall k, sched Legacy.step 0 0 init (busy (S k)) /\ last_time 0 (busy (S k)) = N.of_nat k.
+Lemma busy_sched : forall k, sched Mut7.step 0 0 init (busy (S k)) /\ last_time 0 (busy (S k)) = N.of_nat k.
 Proof.
   induction k as [|k (IH1 & IH2)].
   - cbn. repeat split; lia.
   - rewrite busy_S. split.
     + apply sched_app. split; [exact IH1|]. rewrite IH2.
-      destruct (busy_state k) as (Ht & _). unfold lrun in Ht.
+      destruct (busy_state k) as (Ht & _). unfold mrun in Ht.
       unfold busy_reg. cbn [sched op_time]. unfold due. rewrite Ht. cbn [op_time]. repeat split; lia.
     + clear. generalize (busy (S k)) 0%N. induction l as [|o l IH]; intros; cbn; [reflexivity | apply IH].
 Qed.
@@ -650,43 +770,45 @@ Proof.
   unfold busy_reg in Hi. inversion Hi. reflexivity.
 Qed.
 
-(* With the reset on every registration the first table is served, under the ideal timer and a
-   constant validity, arbitrarily long after its expiry. *)
-Lemma legacy_never_expires : forall K : N, exists l uid t n v now,
-  uniq l /\ validity_const v l /\ sched Legacy.step 0 0 init (l ++ [Get uid now]) /\
-  In (Register uid t n v) l /\
-  snd (Legacy.step (lrun l) (Get uid now)) = OGet (Some t) /\ (n + v + K <= now)%N.
+(* With the reset on every registration, under the ideal timer, a constant validity and distinct
+   UIDs, the first table is still held by the manager arbitrarily long after its expiry; before the
+   fix it was also served (and RPCs validated against it), with the fix it is refused all the same. *)
+Lemma mut7_never_expires : forall K : N, exists l uid t n v now,
+  uniq l /\ validity_const v l /\ sched Mut7.step 0 0 init (l ++ [Get uid now]) /\
+  In (Register uid t n v) l /\ (n + v + K <= now)%N /\
+  alookup uid (tables (mrun l)) = Some (t, (n + v)%N) /\
+  snd (Mut7.legacy_step (mlrun l) (Get uid now)) = OGet (Some t) /\
+  snd (Mut7.step (mrun l) (Get uid now)) = OGet None.
 Proof.
-  intros K. set (k := N.to_nat K + 2%nat).
+  intros K. set (k := (N.to_nat K + 2)%nat).
   exists (busy (S k)), 1%N, 1%N, 0%N, 2%N, (N.of_nat k + 1)%N.
   destruct (busy_state k) as (Ht & Hl). destruct (busy_sched k) as (Hs & Hlast).
   split; [apply busy_uniq|].
   split; [apply busy_const|].
   split.
-  { apply sched_app. split; [exact Hs|]. rewrite Hlast. unfold lrun in Ht.
+  { apply sched_app. split; [exact Hs|]. rewrite Hlast. unfold mrun in Ht.
     cbn [sched op_time]. unfold due. rewrite Ht. cbn [op_time]. repeat split; lia. }
   split; [unfold busy; cbn; left; reflexivity|].
-  split; [cbn [Legacy.step step snd]; rewrite Hl; reflexivity|].
-  subst k. lia.
+  split; [subst k; lia|].
+  split; [exact Hl|].
+  split.
+  - rewrite mlrun_mrun. cbn [Mut7.legacy_step Legacy.step snd]. unfold Legacy.get. rewrite Hl. reflexivity.
+  - cbn [Mut7.step step snd]. unfold get. rewrite Hl.
+    destruct (N.ltb_spec (N.of_nat k + 1) 2); [lia | reflexivity].
 Qed.
-
-(* the same history on the code as it is: the Get is not even schedulable (the timer function runs
-   first), and once it has run the table is gone *)
-Lemma busy_served_not_after_expiry :
-  snd (step (run (busy 4 ++ [Tick 2])) (Get 1 3)) = OGet None /\
-  snd (Legacy.step (lrun (busy 4)) (Get 1 3)) = OGet (Some 1%N).
-Proof. cbn. auto. Qed.
 
 (* ------------------------------------------------------------------ a concrete schedule (non-vacuity) *)
 Lemma nonvacuous_example :
-  let l := [Register 1 1 0 10; Register 2 2 4 10; Get 1 12; Register 3 3 12 10; Tick 14] in
+  let l := [Register 1 1 0 10; Register 2 2 4 10; Get 1 9; Get 1 12; Register 3 3 12 10; Tick 14] in
   uniq l /\ validity_const 10 l /\ sched step 3 0 init (l ++ [Get 3 20]) /\
-  snd (step (run [Register 1 1 0 10; Register 2 2 4 10]) (Get 1 12)) = OGet (Some 1%N) /\
+  snd (step (run [Register 1 1 0 10; Register 2 2 4 10]) (Get 1 9)) = OGet (Some 1%N) /\
+  snd (step (run [Register 1 1 0 10; Register 2 2 4 10]) (Get 1 12)) = OGet None /\
+  snd (Legacy.step (lrun [Register 1 1 0 10; Register 2 2 4 10]) (Get 1 12)) = OGet (Some 1%N) /\
   snd (step (run l) (Get 3 20)) = OGet (Some 3%N) /\
   snd (step (run l) (Get 2 20)) = OGet None /\
   tmr (run l) = TArmed 22 /\
-  snd (step (run (busy 4 ++ [Tick 2])) (Get 1 3)) = OGet None /\
-  snd (Legacy.step (lrun (busy 4)) (Get 1 3)) = OGet (Some 1%N).
+  tables (run (busy 4 ++ [Tick 3])) = [(3, (3, 4)); (4, (4, 5))]%N /\
+  length (tables (mrun (busy 4))) = 4%nat.
 Proof.
   cbv zeta.
   split; [unfold uniq; cbn; repeat constructor; cbn; intuition congruence|].
